@@ -585,6 +585,40 @@ func (s *verifSeqSuite) runOp(c *check.C, op *verifSeqOp) {
 		tr.Commit()
 		s.emit(map[string]interface{}{"ev": "SetConfig", "op": op})
 		return
+	case "candidates":
+		// the refresh-all query: which revision does the store offer, and which blocked revisions was it told about
+		s.fakeStore.refreshRevnos = map[string]snap.Revision{op.Snap + "-id": snap.R(op.Rev)}
+		opsBefore := len(s.fakeBackend.ops)
+		infos, err := snapstate.RefreshCandidates(st, s.user)
+		offered := 0
+		for _, info := range infos {
+			if info.InstanceName() == op.Snap {
+				offered = info.Revision.N
+			}
+		}
+		var storeBlock []int
+		asked := false
+		s.fakeBackend.mu.Lock()
+		for _, o := range s.fakeBackend.ops[opsBefore:] {
+			if o.op == "storesvc-snap-action" {
+				for _, cs := range o.curSnaps {
+					if cs.InstanceName == op.Snap {
+						asked = true
+						storeBlock = []int{}
+						for _, b := range cs.Block {
+							storeBlock = append(storeBlock, b.N)
+						}
+					}
+				}
+			}
+		}
+		s.fakeBackend.mu.Unlock()
+		ev := map[string]interface{}{"ev": "Candidates", "op": op, "offered": offered, "asked": asked, "storeBlock": storeBlock}
+		if err != nil {
+			ev["err"] = err.Error()
+		}
+		s.emit(ev)
+		return
 	case "setboot":
 		// what boot.InUse reports for the kernel: snap_kernel=Rev, snap_try_kernel=Val (0: unset)
 		s.bootRev = []int{}
@@ -813,6 +847,9 @@ func (s *verifSeqSuite) randomOp(name string) *verifSeqOp {
 		vals := []int{0, 2, 2, 3, 3, 4}
 		op.Val = vals[r.Intn(len(vals))]
 		op.Str = op.Val != 0 && r.Intn(3) == 0
+	case pick < 97:
+		op.Kind = "candidates"
+		op.Rev = 1 + r.Intn(verifSeqMaxRev)
 	default:
 		op.Kind = "inhibit"
 		if !installed {
@@ -825,7 +862,7 @@ func (s *verifSeqSuite) randomOp(name string) *verifSeqOp {
 
 func (s *verifSeqSuite) isChangeOp(op *verifSeqOp) bool {
 	switch op.Kind {
-	case "setretain", "setconfig", "inhibit", "setboot":
+	case "setretain", "setconfig", "inhibit", "setboot", "candidates":
 		return false
 	}
 	return true
